@@ -16,6 +16,7 @@ Require Import Selen.Model.B64 Selen.Model.FloatInterval Selen.Model.CtxFloat.
 Require Import Selen.Model.Api Selen.Model.Lower Selen.Model.Routes.
 Require Import Selen.Model.Checked.
 Require Import Selen.Model.Sudoku.
+Require Import Selen.Model.Props.Neq.
 Extraction Language OCaml.
 Set Extraction AccessOpaque.
 Cd "Extract".
@@ -24,7 +25,7 @@ Extraction "selen_model.ml"
   ss_is_fixed ss_first ss_last ss_contains ss_is_subset_of ss_equals ss_remove size
   spec_init spec_step spec_run cur bad universe
   drange dof_values cset_min cset_max vtimes vtimes_neg vminus vbnd vset vmin vmax all_fixed
-  mk_add mk_sub mk_leq mk_lt mk_geq mk_gt mk_eq mk_neq_noop mk_sum
+  mk_add mk_sub mk_leq mk_lt mk_geq mk_gt mk_eq mk_neq_noop mk_neq mk_sum
   all_zero mk_lin_eq mk_lin_le mk_lin_ne mk_lin_eq_reif mk_lin_le_reif mk_lin_ne_reif
   mk_count mk_at_least mk_at_most mk_exactly mk_element mk_table table_okb
   mk_band mk_bor mk_bnot mk_bxor mk_eq_reif mk_ne_reif mk_lt_reif mk_le_reif mk_gt_reif mk_ge_reif
